@@ -84,6 +84,14 @@ SCENARIOS = {
     # a resolver update while a completion starts a refresh
     "resolve-refresh": (C(1, 1, 100, uc=1, ums=1), [R(1), S(1, "READY"), P(dl=1), A(5)],
                         [D(1, "CDE"), R(2)], [S(2, "READY"), P(), R(3)]),
+    # a resolver update while a saturated pick grows the pool
+    "resolve-growth": (C(1, 2, 1), [R(1), S(1, "READY"), P()], [P(), R(2), P(pk=1)], [S(2, "READY"), P(), R(3)]),
+    # a keyed pick and an UNBIND completion while the key's channel is taken over by its replacement
+    "bound-swap": (C(1, 1, 100, uc=1, ums=1), [R(), S(1, "READY"), P("BIND"), D(1, "OK", [1]), P("UNBIND", [1]), P(dl=1), A(5), D(3, "CDE")],
+                   [P("BOUND", [1]), S(2, "READY"), D(2, "OK")], [P("BOUND", [1]), P()]),
+    # fallback: the stand-in breaks while keyed picks are placed and the key is unbound
+    "fallback-unbind": (C(1, 2, 1, fb=True), [R(), S(1, "READY"), P("BIND"), D(1, "OK", [1]), P(), P(), S(2, "READY"), S(1, "TF"), P("UNBIND", [1])],
+                        [D(4, "OK"), P("BOUND", [1]), S(1, "READY")], [P("BOUND", [1]), P("BIND"), D(6, "OK", [1]), P("BOUND", [1])]),
     # round-robin BINDs from several goroutines (all channels READY: none waits)
     "rr": (C(2, 2, 100, rr=True), [R(), S(1, "READY"), S(2, "READY"), P("BIND")],
            [P("BIND"), P("BIND"), P("BIND")], [P("BIND"), P("BIND")]),
@@ -93,14 +101,15 @@ SCENARIOS = {
 }
 
 PROP_SCENARIOS = {
-    "C01": ["bind-swap", "unbind-swap", "bind-bind", "bind-unbind"],
+    "C01": ["bind-swap", "unbind-swap", "bind-bind", "bind-unbind", "bound-swap"],
     "C02": ["streams", "streams-swap", "growth-done"],
-    "C03": ["growth2", "growth3", "growth-done", "refresh2"],
+    "C03": ["growth2", "growth3", "growth-done", "refresh2", "resolve-growth"],
+    "C04": ["growth2", "refresh-swap", "fallback"],
     "C05": ["bind-swap", "streams-swap", "resolve-refresh", "rr-state"],
     "C06": ["bind-swap", "refresh-swap", "refresh2", "growth2", "fallback", "resolve-refresh", "rr-state", "unbind-swap"],
-    "C08": ["fallback"],
+    "C08": ["fallback", "fallback-unbind"],
     "C09": ["rr", "rr-state"],
-    "C20": ["resolve-refresh"],
+    "C20": ["resolve-refresh", "resolve-growth"],
 }
 
 SOLO_REPEAT = 14
@@ -294,10 +303,22 @@ def judge(scratch, by_sid, tag):
         ids = sorted(always | set(c for b in bad_by[best] for c in b["ids"]))
         first = bad_by[best][0]
         tags = sorted(set(t for b in bad_by[best] for t in b.get("tags", [])))
-        bad.append({"sid": sid, "i": first["i"], "ids": ids, "tags": tags, "orders": len(lsids), "best": best})
+        bad.append({"sid": sid, "i": first["i"], "ids": ids, "tags": tags, "orders": len(lsids), "best": best,
+                    "per_order": [sorted(x) for x in per]})
     hangs = sum(1 for evs in by_sid.values() for e in evs if e["op"] == "conc" and e["res"] == "HANG")
     return bad, verdict, {"explained": explained, "linearizations": sum(len(v) for v in lin_of.values()), "hangs": hangs,
                           "honoured": honoured, "drift": drift}
+
+
+def for_property(bad, pid):
+    """A section that no order explains counts against a property only when every order violates one of that property's clauses;
+    the clauses reported are those of the order with the fewest of them."""
+    out = []
+    for b in bad:
+        per = [[c for c in ids if c.split("_")[0] == pid] for ids in b["per_order"]]
+        if all(per):
+            out.append(dict(b, ids=min(per, key=len)))
+    return out
 
 
 def run(scratch, pid, tier, seed, names=None):
